@@ -241,6 +241,8 @@ def run_job(unit, job, cpath, workdir, tier):
         cur = gi
     cmd = ['cbmc', cur] + BASE_FLAGS + ['--json-ui', '--verbosity', '6']
     cmd += job.flags
+    if '--object-bits' not in job.flags:
+        cmd += ['--object-bits', '12']
     if job.unwind is not None:
         cmd += ['--unwind', str(job.unwind), '--unwinding-assertions']
     r.cmds.append(' '.join(cmd))
@@ -329,6 +331,8 @@ def trace_for(unit, job, cpath_gb, props, workdir, timeout=900):
     """Re-run cbmc with --trace for the failed properties; return
     {prop: {'inputs': {...}, 'raw_steps': n}}"""
     cmd = ['cbmc', cpath_gb] + BASE_FLAGS + ['--json-ui', '--trace'] + job.flags
+    if '--object-bits' not in job.flags:
+        cmd += ['--object-bits', '12']
     if job.unwind is not None:
         cmd += ['--unwind', str(job.unwind), '--unwinding-assertions']
     for p in props:
